@@ -68,6 +68,7 @@ type FuncContract struct {
 	Line     int
 	// filled by generator
 	Captures   [][2]string // closures: captured variables (name, type)
+	ParamsDecl []string    // the contract's own names for receiver and parameters, by position (optional)
 	ParamNames []string // receiver first
 	ParamTypes []string
 	ResultTypes []string
@@ -186,6 +187,17 @@ func parseContractFile(path string, pc *PkgContracts) error {
 						return fmt.Errorf("%s:%d: bad captures list", path, i+1)
 					}
 					cur.Captures = append(cur.Captures, [2]string{f[0], f[1]})
+				}
+				rest = strings.TrimSpace(rest[:j])
+			}
+			if j := strings.Index(rest, " params "); j >= 0 {
+				// `func (*T).M params (f, buf, n)`: the names this contract uses for the receiver and the parameters, by
+				// position, so that renaming a parameter in the code does not detach the contract
+				c := strings.Trim(strings.TrimSpace(rest[j+8:]), "()")
+				for _, x := range strings.Split(c, ",") {
+					if x = strings.TrimSpace(x); x != "" {
+						cur.ParamsDecl = append(cur.ParamsDecl, x)
+					}
 				}
 				rest = strings.TrimSpace(rest[:j])
 			}
@@ -670,6 +682,13 @@ func genOverlay(pc *PkgContracts, files []*ast.File, specDir string) (string, er
 					ptypes = append(ptypes, c[1])
 				}
 				pn, pt := fieldListNames(lit.Type.Params, "a")
+				if len(fc.ParamsDecl) == len(pn) {
+					pn = append([]string{}, fc.ParamsDecl...)
+				} else if len(fc.ParamsDecl) > 0 {
+					pc.BindErrors = append(pc.BindErrors, fmt.Sprintf("bind:%s.%s: params(...) names %d parameters, the function literal has %d", pc.Name, fc.QualName, len(fc.ParamsDecl), len(pn)))
+					fc.Unbound = true
+					continue
+				}
 				pnames = append(pnames, pn...)
 				ptypes = append(ptypes, pt...)
 				rnames, rtypes = fieldListNames(lit.Type.Results, "ret")
@@ -686,6 +705,13 @@ func genOverlay(pc *PkgContracts, files []*ast.File, specDir string) (string, er
 			pn, pt := fieldListNames(fd.Type.Params, "a")
 			pnames = append(pnames, pn...)
 			ptypes = append(ptypes, pt...)
+			if len(fc.ParamsDecl) == len(pnames) {
+				pnames = append([]string{}, fc.ParamsDecl...)
+			} else if len(fc.ParamsDecl) > 0 {
+				pc.BindErrors = append(pc.BindErrors, fmt.Sprintf("bind:%s.%s: params(...) names %d parameters, the function has %d", pc.Name, fc.QualName, len(fc.ParamsDecl), len(pnames)))
+				fc.Unbound = true
+				continue
+			}
 			rnames, rtypes = fieldListNames(fd.Type.Results, "ret")
 			}
 		}
